@@ -346,10 +346,16 @@ pub fn run(c: &Case, o: &mut Outcome) -> Result<(), Failure> {
     let others = c.others.clone();
     let comp = c.comp;
     let rt_seed_for_knobs = c.rt_seed;
+    let net_for_knobs = net.clone();
+    o.label_if(rt_seed_for_knobs % 8 == 3, "transient_accept_error_before_the_connection");
     o.label_if(rt_seed_for_knobs % 4 == 0, "server_concurrency_limit_per_connection");
     let res = rt::run_virtual(c.rt_seed, Duration::from_secs(3600), async move {
         let server = tonic::transport::Server::builder();
         let mut server = server;
+        // a transient accept error (ECONNABORTED-like) before the client connects: the server keeps accepting
+        if rt_seed_for_knobs % 8 == 3 {
+            net_for_knobs.inject_accept_error(std::io::ErrorKind::ConnectionAborted);
+        }
         // a per-connection concurrency limit puts a readiness-dependent layer into the server stack
         if rt_seed_for_knobs % 4 == 0 {
             server = server.concurrency_limit_per_connection(1 + (rt_seed_for_knobs / 4 % 3) as usize);
@@ -368,7 +374,9 @@ pub fn run(c: &Case, o: &mut Outcome) -> Result<(), Failure> {
             server.add_service(s)
         };
         let srv = tokio::spawn(async move { router.serve_with_incoming(incoming).await });
-        let ch = match net.channel().await {
+        // the endpoint URI may carry a path (and a trailing slash): only scheme and authority matter for requests
+        let ep_uri = ["http://pipe.test", "http://pipe.test/", "http://pipe.test/grpc", "http://pipe.test/a/b/"][(rt_seed_for_knobs / 8 % 4) as usize];
+        let ch = match tonic::transport::Endpoint::from_static(ep_uri).connect_with_connector(net.connector()).await {
             Ok(ch) => ch,
             Err(e) => return Err(format!("connect failed: {e:?}")),
         };
